@@ -25,6 +25,9 @@ type Plan struct {
 	Con     *ConPlan   `json:"con,omitempty"`
 	// FixedSched: replay Sched (tolerantly) instead of drawing a schedule
 	FixedSched bool `json:"fixed_sched,omitempty"`
+	// Index: 1-based position of the run in the check's sequence (0: unknown);
+	// the first indexes are used for systematic sweeps (C13, C16)
+	Index int `json:"index,omitempty"`
 }
 
 // Extra carries property-specific replay parameters.
@@ -101,6 +104,7 @@ func RunSeq(plan *Plan, p *Profile) *RunResult {
 			}
 		}
 	} else {
+		p.index = plan.Index
 		g := NewGen(plan.Seed, w, p)
 		for i := 0; ; i++ {
 			op, ok := g.Next()
